@@ -24,6 +24,7 @@ extern char g_sim_report_detail[8][160];
 void   sim_ledger_reset (uint64_t fill_seed);
 int    sim_ledger_live_total (void);
 int    sim_ledger_live_for_tag (int tag, void **out, int max);
+int    sim_ledger_unreachable_live (int tag);        /* live, tagged (or any: -2), not reachable from library statics */
 void   sim_ledger_adopt (void *p, size_t n);        /* converter output handed to libeav */
 void   sim_ledger_retag (int from, int to);
 uint64_t sim_ledger_allocs (void);
